@@ -133,6 +133,18 @@ def rand_ref(rng):
     return "{{" + inner + "}}"
 
 
+def rand_long_ref(rng):
+    """one expression with MANY blank runs (5-12 components, a blank run of 1-3 characters of any kind before and after
+    every dot): whatever the scanner does with the first few runs it must do with all of them"""
+    n = rng.randint(5, 12)
+    def b():
+        return "".join(rng.choice([" ", "\t", "\n", "\r\n", "\x0b", "\x0c", "\u00a0", "\u2003", " "]) for _ in range(rng.choice([1, 1, 2, 3])))
+    inner = b() + rand_name(rng)
+    for _ in range(n - 1):
+        inner += b() + "." + b() + rand_name(rng)
+    return "{{" + inner + b() + "}}"
+
+
 BAD_INNER = ["", " ", "1a", "a..b", "a.", ".a", "a b", "a-b", "a{b", "a}b", "{a", "a}", "a.1", "1", "a,b", "a*", "(a)", "a:b", "a.b.", "a . . b", "٣", "a.٣", "$a", "a$"]
 
 
@@ -206,6 +218,8 @@ class C16(core.PropBase):
                 yield {"s": "".join(rng.choice(ALPHA) for _ in range(rng.choice([6, 6, 7, 8])))}
         for _ in range(200000 if thorough else 12000):
             yield {"s": rand_mix(rng)}
+        for _ in range(30000 if thorough else 3000):
+            yield {"s": rng.choice(["", "pre ", "{{a}} "]) + rand_long_ref(rng) + rng.choice(["", " post", rand_long_ref(rng)])}
         for _ in range(200000 if thorough else 12000):
             s = rand_mix(rng)
             for _ in range(rng.randint(1, 3)):
